@@ -647,7 +647,25 @@ def scan_entry(ctx, counter, evname, no=None):
         a, b = ctx.rng.sample(sub, 2)
         if not (b == a or b.startswith(a + "/")):
             root, module = a, b
+    mk = False
+    if place == "outside_sibling" and ctx.rng.random() < 0.4:
+        # a directory next to the root package whose name merely continues the root's name
+        # ("proj" / "proj_legacy"): outside root_path although its path starts with the same
+        # characters; often an exclusion pattern of the request matches that very directory.
+        # (It lies outside every root of the world, so no other scan sees it.)
+        word = W.pick(ctx.rng, ["legacy", "old", "x"])
+        root, module, mk = tree.root, tree.root + "_" + word, True
+        r = ctx.rng.random()
+        kw = dict(kw)
+        if kw.get("exclusions"):
+            kw["exclusions"] = [f"*{word}*"]
+        elif kw.get("regex_exclusions"):
+            kw["regex_exclusions"] = [f".*_{word}.*"]
+        elif r < 0.6 and "exclusions" not in kw and "regex_exclusions" not in kw:
+            kw["exclusions"] = [f"*_{word}*"]
     cfg = {"tree": tree.name, "root": root, "module": module, "via": via, "kw": kw}
+    if mk:
+        cfg["mk_sibling"] = True
     return cfg, f"entry:{no}"
 
 
